@@ -15,6 +15,7 @@ import (
 	"github.com/renbou/grpcbridge/internal/bridgetest/testpb"
 	vc "github.com/renbou/grpcbridge/internal/zzverif/vcommon"
 	"github.com/renbou/grpcbridge/internal/zzverif/vfake"
+	"github.com/renbou/grpcbridge/transcoding"
 	"github.com/renbou/grpcbridge/webbridge"
 	"google.golang.org/grpc/codes"
 	"google.golang.org/grpc/status"
@@ -91,7 +92,12 @@ func httpPart(w *vc.Writer, r *vc.Rand) {
 			}
 			expected = append(expected, exp)
 		}
-		conn.Script = append(conn.Script, vfake.RespItem{Kind: vfake.KEOF})
+		if k > 0 && rr.Chance(35) {
+			// the target fails after the first byte: nothing but the k records may be in the body
+			conn.Script = append(conn.Script, vfake.RespItem{Kind: vfake.KErr, Status: status.New(codes.Internal, "late failure")})
+		} else {
+			conn.Script = append(conn.Script, vfake.RespItem{Kind: vfake.KEOF})
+		}
 		router := &vfake.Router{Conn: conn, Target: t, Service: svc, Method: m,
 			Binding: &bridgedesc.Binding{HTTPMethod: "POST", Pattern: "/x", RequestBodyPath: "*", ResponseBodyPath: rb}}
 		b := webbridge.NewTranscodedHTTPBridge(router, webbridge.TranscodedHTTPBridgeOpts{})
@@ -125,6 +131,7 @@ func wsPart(w *vc.Writer, r *vc.Rand) {
 		cs := rr.Bool()
 		hasBody := rr.Chance(70)
 		nFrames := rr.Intn(4)
+		reqBin, respBin := rr.Chance(30), rr.Chance(30)
 		frames := vc.L{}
 		type fr struct {
 			text bool
@@ -134,9 +141,12 @@ func wsPart(w *vc.Writer, r *vc.Rand) {
 		for j := 0; j < nFrames; j++ {
 			p := canon(flowMsg{rr.Pick(strPool)})
 			text := !rr.Chance(15)
+			if reqBin {
+				text = !text
+			}
 			fs = append(fs, fr{text, p})
 			frames = append(frames, vc.L{text, p})
-			if !text {
+			if text == reqBin {
 				// gws closes the TCP connection right after writing the close frame: client data still unread at that moment
 				// resets the connection and can destroy the close frame (dependency behaviour, DESIGN §6) - send nothing after it
 				break
@@ -148,7 +158,7 @@ func wsPart(w *vc.Writer, r *vc.Rand) {
 		expectReqs := 0
 		if cs {
 			for _, f := range fs {
-				if !f.text {
+				if f.text == reqBin {
 					wrong = true
 					break
 				}
@@ -156,7 +166,7 @@ func wsPart(w *vc.Writer, r *vc.Rand) {
 			}
 		} else if hasBody {
 			if len(fs) > 0 {
-				if fs[0].text {
+				if fs[0].text != reqBin {
 					expectReqs = 1
 				} else {
 					wrong = true
@@ -194,9 +204,21 @@ func wsPart(w *vc.Writer, r *vc.Rand) {
 		if !hasBody {
 			router.Binding = &bridgedesc.Binding{HTTPMethod: "GET", Pattern: "/x", RequestBodyPath: ""}
 		}
-		b := webbridge.NewTranscodedWebSocketBridge(router, webbridge.TranscodedWebSocketBridgeOpts{})
+		tr := transcoding.NewStandardTranscoder(transcoding.StandardTranscoderOpts{Marshalers: []transcoding.Marshaler{transcoding.DefaultJSONMarshaler, binMarshaler{transcoding.DefaultJSONMarshaler}}})
+		b := webbridge.NewTranscodedWebSocketBridge(router, webbridge.TranscodedWebSocketBridgeOpts{Transcoder: tr})
 		srv := httptest.NewServer(b)
-		ws, _, err := websocket.DefaultDialer.Dial("ws"+strings.TrimPrefix(srv.URL, "http")+"/x", http.Header{})
+		hdr := http.Header{}
+		if reqBin {
+			hdr.Set("Content-Type", binCT)
+		}
+		if respBin != reqBin || rr.Chance(30) {
+			if respBin {
+				hdr.Set("Accept", binCT)
+			} else {
+				hdr.Set("Accept", "application/json")
+			}
+		}
+		ws, _, err := websocket.DefaultDialer.Dial("ws"+strings.TrimPrefix(srv.URL, "http")+"/x", hdr)
 		if err != nil {
 			srv.Close()
 			continue
@@ -251,7 +273,7 @@ func wsPart(w *vc.Writer, r *vc.Rand) {
 		if wrong {
 			outcome = 3
 		}
-		w.Case(vc.L{cs, hasBody, frames, responses, outcome}, vc.L{toTarget, got, closeCode, reasonHasCode}, nFrames > 0)
+		w.Case(vc.L{cs, hasBody, frames, responses, outcome, reqBin, respBin}, vc.L{toTarget, got, closeCode, reasonHasCode}, nFrames > 0)
 	}
 }
 
@@ -266,3 +288,10 @@ func main() {
 		wsPart(w, r)
 	}
 }
+
+// binMarshaler: the JSON marshaler under a binary content type, to exercise codecs whose WebSocket frames are binary
+const binCT = "application/x-verif-bin"
+
+type binMarshaler struct{ *transcoding.JSONMarshaler }
+
+func (binMarshaler) ContentType() (string, bool) { return binCT, true }
